@@ -258,3 +258,20 @@ Inductive reachable_u (c : metric) : state -> Prop :=
 | reach_u_step st now ev : reachable_u c st -> ev_wf ev ->
     match ev with ECall id _ _ _ => ~ In id (map wid (pending st)) | _ => True end ->
     reachable_u c (fst (step true st now ev)).
+
+(* ---------- well-formed scripts (C30_model_meets_spec) ---------- *)
+Definition sop_wf (op : sop) : Prop :=
+  match op with SAcq _ w _ | STry w | SRel w => m_wf w | _ => True end.
+Fixpoint times_inc (t : Z) (sc : list (Z * sop)) : Prop :=
+  match sc with [] => True | (now, _) :: r => (t < now)%Z /\ times_inc now r end.
+Definition acq_ids (sc : list (Z * sop)) : list N :=
+  flat_map (fun x => match snd x with SAcq id _ _ => [id] | _ => [] end) sc.
+(* deadlines of the Acquire calls that can block at all (positive timeout) *)
+Definition pos_deadlines (sc : list (Z * sop)) : list Z :=
+  flat_map (fun x => match snd x with SAcq _ _ timeout => if (0 <? timeout)%Z then [(fst x + timeout)%Z] else [] | _ => [] end) sc.
+(* one call per instant at increasing instants, goroutine ids unique, Go-valued weights, and no deadline
+   falls exactly on the instant of a scripted call (the order of a timer callback and a call at the very
+   same instant is not determined) *)
+Definition script_wf (t0 : Z) (sc : list (Z * sop)) : Prop :=
+  times_inc t0 sc /\ NoDup (acq_ids sc) /\ (forall x, In x sc -> sop_wf (snd x)) /\
+  (forall d x, In d (pos_deadlines sc) -> In x sc -> fst x <> d).
